@@ -22,7 +22,8 @@
 **   5 call K1: try { throw A } catch (e in B) { }        escapes through a non-matching callee handler
 **   6 call K2: try { throw A } catch (e)      { throw B } callee handler throws
 **   7 call K3: try { }         catch (e)      { }         callee try that completes normally
-**   8 call a plain function that throws B
+**   8 call a plain function that throws B (the callee receives the object as its argument)
+**   9 (handler slots only, halpha=) re-throw the object bound in this handler: throw(e, ...)
 ** Filter alphabet: 0 catch-all (separate lexical variant)  1 {A}=(A,N,M)  2 {B}=(N,B,M)  3 {A,B}=(M,A,B)
 **   (filters are vars bound at run time; N is a type that is never thrown)
 **
@@ -53,7 +54,9 @@
 **             "Exception objects" below)
 **             pct=0..3|mix (message texts that contain '%'; default mix; see "Message text variants")
 **             msg=0..4|mix (message arguments whose Show uses try/catch/throw itself; see "Message arguments")
-**             kind=chain|seq|seqt depth=N alpha=<codes> ppalpha=<codes> falpha=<codes>
+**             alloc=mix1|mix2|mix3|heap|static|stack (allocation class of the thrown VALUE objects; default mix1;
+**             see "Allocation classes")
+**             kind=chain|seq|seqt depth=N alpha=<codes> halpha=<codes, handler slots; default alpha> ppalpha=<codes> falpha=<codes>
 **             shapes=all|body dyns=all|lex chain=0|1 fork=0|1 fresh=0|1 shard=k/n
 **
 ** White-box: includes the library's own Exception.c only to read the pending object of
@@ -133,8 +136,8 @@ enum { OBJ_TYPES = 0, OBJ_STRUCT = 1, OBJ_STRING = 2, OBJ_INT = 3, OBJ_MIXED1 = 
 enum { OK_TYPE = 0, OK_STRUCT = 1, OK_STRING = 2, OK_INT = 3, OK_CMPTRY = 4 };
 static int objs_mode = OBJ_TYPES;
 
-struct odesc { var obj; int kind, code; char shown[32]; };
-static struct odesc TH[4];                 /* thrown objects 1..3 */
+struct odesc { var obj; var home; int kind, code, cls; char shown[32]; };
+static struct odesc TH[4];                 /* thrown objects 1..3; obj = the object thrown in the execution in progress */
 #define TA (TH[1].obj)
 #define TB (TH[2].obj)
 #define TC (TH[3].obj)
@@ -159,7 +162,7 @@ static var mk_obj(int kind, int code, int payload, const char* text, int id) {
 
 static void mk_thrown(int k, int kind, int code) {
   TH[k].kind = kind; TH[k].code = code;
-  TH[k].obj = mk_obj(kind, code, 100 + code, NULL, 0);
+  TH[k].obj = TH[k].home = mk_obj(kind, code, 100 + code, NULL, 0);
   if (kind == OK_TYPE) snprintf(TH[k].shown, sizeof TH[k].shown, "%s", c_str(TH[k].obj));
   else if (kind == OK_STRUCT || kind == OK_CMPTRY) snprintf(TH[k].shown, sizeof TH[k].shown, "%s", exv_names[code]);
   else if (kind == OK_STRING) snprintf(TH[k].shown, sizeof TH[k].shown, "\"%s\"", exv_names[code]);
@@ -212,11 +215,140 @@ static void objs_setup(void) {
 /* the value of a thrown object must still be what was thrown (nothing may have written to it) */
 static int value_intact(int k) {
   var o = TH[k].obj; int code = TH[k].code;
-  if (TH[k].kind == OK_STRUCT) return ((struct Exv*)o)->code == code && ((struct Exv*)o)->payload == 100 + code;
-  if (TH[k].kind == OK_CMPTRY) return ((struct Exw*)o)->code == code && ((struct Exw*)o)->payload == 100 + code;
+  /* payload / 1000 is the mark a handler left there (see "Allocation classes"), the rest is the payload proper */
+  if (TH[k].kind == OK_STRUCT) return ((struct Exv*)o)->code == code && ((struct Exv*)o)->payload % 1000 == 100 + code;
+  if (TH[k].kind == OK_CMPTRY) return ((struct Exw*)o)->code == code && ((struct Exw*)o)->payload % 1000 == 100 + code;
   if (TH[k].kind == OK_STRING) return strcmp(c_str(o), exv_names[code]) == 0;
   if (TH[k].kind == OK_INT) return c_int(o) == code;
   return 1;
+}
+
+/*
+** Allocation classes (alloc=).  The thrown VALUE objects (struct / String / Int / cmptry kinds; singleton Type
+** objects are static by nature) come in three allocation classes:
+**   heap    new_raw()
+**   static  static storage whose header is written with header_init(..., AllocStatic), as for a CelloEmpty kind
+**   stack   built with $(Exv, ...) / $(Exw, ...) / $S(...) / $I(...) in the FRAME OF THE FUNCTION THAT RUNS THE
+**           PROGRAM (exec_sent, child_fn, deep_child; FRAME_OBJS below).  That frame encloses the sentinel and every
+**           try block of the program, so the object is alive in every handler that is offered it: the handler of the
+**           block it was raised in, enclosing handlers after a non-matching inner block, a handler that re-throws
+**           it (statement 9), and the callee that received it as an argument (statement 8).
+** alloc=mix1 (default): A stack, B static, C heap;  mix2: A static, B heap, C stack;  mix3: A heap, B stack, C static;
+** alloc=heap|static|stack: all three in that class.  Filter objects are always heap objects.
+** Two oracles:
+**   identity  every handler entry (the sentinel's too) records objid() of the object it was given: pointer identity
+**             with the object that was thrown; an equal object that is not the thrown one is named as such (id 10).
+**   mutation  every handler entry writes its ordinal within the execution (1, 2, ...) INTO the object it was given,
+**             through the pointer it was given: struct kinds into the payload field (Cmp ignores it); String by moving
+**             val to another buffer that holds the same text; Int has nothing eq() ignores, so the handler adds 1000
+**             with assign(), the owner's pointer is read, and the handler takes the 1000 off again.  When the program
+**             has ended, the OWNER of the objects reads the mark of each thrown value object through its own pointer
+**             ('W' events): it must be the ordinal of the last handler that the reference says was bound to that
+**             object (0 = no handler was).
+*/
+enum { AC_HEAP = 0, AC_STATIC = 1, AC_STACK = 2, NMARK = 64 };
+static int alloc_mode = 3;                /* 0..2: everything in that class; 3..5: mix1..mix3 */
+static int alloc_class(int k) {
+  static const int order[3] = { AC_STACK, AC_STATIC, AC_HEAP };
+  return alloc_mode <= 2 ? alloc_mode : order[(k - 1 + alloc_mode - 3) % 3];
+}
+static var sbuf[4][8];                    /* static class: storage of header + struct */
+static char spool[4][NMARK][16];          /* String kinds: NMARK buffers holding the text of thrown k; val points into them */
+static char* sinit[4];                    /* ... and the buffer val pointed to when the execution began */
+static volatile int hord;                 /* handler entries so far in this execution */
+static volatile int seen_mark[4];         /* Int kinds: ordinal of the last handler whose write showed through the owner's pointer */
+
+static size_t kind_size(int kind) { return kind == OK_STRUCT ? sizeof(struct Exv) : kind == OK_CMPTRY ? sizeof(struct Exw) : kind == OK_STRING ? sizeof(struct String) : sizeof(struct Int); }
+static var kind_type(int kind) { return kind == OK_STRUCT ? Exv : kind == OK_CMPTRY ? Exw : kind == OK_STRING ? String : Int; }
+
+static void alloc_setup(void) {
+  for (int k = 1; k <= 3; k++) {
+    struct odesc* t = &TH[k];
+    t->cls = t->kind == OK_TYPE ? AC_STATIC : alloc_class(k);
+    if (t->kind == OK_TYPE) continue;
+    if (t->kind == OK_STRING) {
+      for (int i = 0; i < NMARK; i++) snprintf(spool[k][i], sizeof spool[k][i], "%s", exv_names[t->code]);
+      struct String* h = t->home; free(h->val); h->val = spool[k][0];
+    }
+    if (t->cls == AC_STATIC) {
+      var o = header_init(sbuf[k], kind_type(t->kind), AllocStatic);
+      memcpy(o, t->home, kind_size(t->kind));
+      t->home = t->obj = o;
+    }
+  }
+}
+
+/* start of an execution: the objects of the stack class are (re)built in the caller's frame, all marks are wiped */
+static void frame_install(int k, var fv, var fw, var fs, char* fb, var fi) {
+  struct odesc* t = &TH[k];
+  seen_mark[k] = 0;
+  if (k == 1) hord = 0;
+  t->obj = t->home;
+  if (t->kind == OK_TYPE) return;
+  if (t->cls == AC_STACK) {
+    t->obj = t->kind == OK_STRUCT ? fv : t->kind == OK_CMPTRY ? fw : t->kind == OK_STRING ? fs : fi;
+    memcpy(t->obj, t->home, kind_size(t->kind));
+  }
+  if (t->kind == OK_STRUCT) ((struct Exv*)t->obj)->payload = 100 + t->code;
+  else if (t->kind == OK_CMPTRY) ((struct Exw*)t->obj)->payload = 100 + t->code;
+  else if (t->kind == OK_INT) ((struct Int*)t->obj)->val = t->code;
+  else {
+    struct String* s = t->obj;
+    if (t->cls == AC_STACK) { snprintf(fb, 16, "%s", exv_names[t->code]); s->val = fb; } else s->val = spool[k][0];
+    sinit[k] = s->val;
+  }
+}
+/* written at function scope (compound literals live as long as the enclosing block) */
+#define FRAME_K(K) \
+  struct Exv* fv##K = $(Exv, 0, 0); struct Exw* fw##K = $(Exw, 0, 0, 0); char fb##K[16]; \
+  struct String* fs##K = $S(fb##K); struct Int* fi##K = $I(0); \
+  frame_install(K, fv##K, fw##K, fs##K, fb##K, fi##K);
+#define FRAME_OBJS FRAME_K(1) FRAME_K(2) FRAME_K(3)
+#define FRAME_END do { for (int k_ = 1; k_ <= 3; k_++) TH[k_].obj = TH[k_].home; } while (0)
+
+/* the handler marks the object it was given (known: the object is one the harness made; the text buffer of a String
+** that is not ours belongs to whoever made it and is left alone - the owner then finds no mark, which is the verdict) */
+static void mark_bound(var e, int n, int known) {
+  var t = type_of(e);
+  if (t is Exv) { struct Exv* v = e; v->payload = v->payload % 1000 + 1000 * n; }
+  else if (t is Exw) { struct Exw* v = e; v->payload = v->payload % 1000 + 1000 * n; }
+  else if (t is String) {
+    for (int k = 1; k <= 3 && n < NMARK && known; k++)
+      if (TH[k].kind == OK_STRING && strcmp(c_str(e), exv_names[TH[k].code]) == 0) { ((struct String*)e)->val = spool[k][n]; break; }
+  } else if (t is Int) {
+    int64_t v = c_int(e);
+    assign(e, $I(v + 1000));
+    for (int k = 1; k <= 3; k++) if (TH[k].kind == OK_INT && c_int(TH[k].obj) == TH[k].code + 1000) seen_mark[k] = n;
+    assign(e, $I(v));
+  }
+}
+
+/* the owner reads the mark through its own pointer */
+static int read_mark(int k) {
+  var o = TH[k].obj;
+  if (TH[k].kind == OK_STRUCT) return ((struct Exv*)o)->payload / 1000;
+  if (TH[k].kind == OK_CMPTRY) return ((struct Exw*)o)->payload / 1000;
+  if (TH[k].kind == OK_INT) return seen_mark[k];
+  if (TH[k].kind == OK_STRING) {
+    char* v = ((struct String*)o)->val;
+    if (v == sinit[k]) return 0;
+    for (int i = 0; i < NMARK; i++) if (v == spool[k][i]) return i;
+    return 99;
+  }
+  return 0;
+}
+
+/* an object that is none of ours: an equal copy of a thrown value object? */
+static int equal_copy_of_thrown(var e) {
+  var t = type_of(e);
+  for (int k = 1; k <= 3; k++) {
+    if (TH[k].kind == OK_TYPE || t isnt kind_type(TH[k].kind)) continue;
+    if (TH[k].kind == OK_STRUCT && ((struct Exv*)e)->code == TH[k].code) return 1;
+    if (TH[k].kind == OK_CMPTRY && ((struct Exw*)e)->code == TH[k].code) return 1;
+    if (TH[k].kind == OK_STRING && strcmp(c_str(e), exv_names[TH[k].code]) == 0) return 1;
+    if (TH[k].kind == OK_INT && c_int(e) == TH[k].code) return 1;
+  }
+  return 0;
 }
 
 enum { KBASE = 3, NCALLEE = 4, TOTLEV = 7, MAXEV = 250 };
@@ -246,6 +378,7 @@ struct deep_res {
   int nh; struct deep_h h[8];             /* handler entries */
   int bad, bad_where, bad_level, bad_seen;  /* first len(current(Exception)) mismatch: where = 'e'ntry 'b'ody e'x'it */
   int exits, bottom_reached, bottom_depth, finished, final_depth, after_ran, after_ok;
+  int mark[4];                            /* what the owner reads in thrown 1 / 2 when the nest has completed */
 };
 struct shm { int ntr; int badmsg; struct ev tr[MAXEV]; struct deep_res deep; };
 static volatile struct shm* SH;
@@ -265,8 +398,20 @@ static int objid(var o) {
   return 9;
 }
 static const char* objname(int id) {
-  static const char* nm[] = { "none", "A", "B", "C", "a-filter-object-that-matches-nothing", "filter-object-equal-to-A-not-the-thrown-A", "filter-object-equal-to-B-not-the-thrown-B", "?", "thrown-object-with-altered-value", "other" };
-  return (id >= 0 && id <= 9) ? nm[id] : "?";
+  static const char* nm[] = { "none", "A", "B", "C", "a-filter-object-that-matches-nothing", "filter-object-equal-to-A-not-the-thrown-A", "filter-object-equal-to-B-not-the-thrown-B", "?", "thrown-object-with-altered-value", "other", "an-equal-copy-of-a-thrown-object-not-the-thrown-object" };
+  return (id >= 0 && id <= 10) ? nm[id] : "?";
+}
+/* a handler entry: who is the bound object (identity), and the handler leaves its mark in it (mutation) */
+static int hbound(var e) {
+  int id = objid(e);
+  if (id == 9 && equal_copy_of_thrown(e)) id = 10;
+  int n = hord + 1; hord = n;
+  mark_bound(e, n, id != 9 && id != 10);
+  return id;
+}
+static const char* ac_txt(int k) {
+  static const char* nm[] = { "heap", "static", "stack" };
+  return TH[k].kind == OK_TYPE ? "type object" : nm[TH[k].cls];
 }
 
 static volatile int in_child;
@@ -358,33 +503,37 @@ static __attribute__((noinline)) void throw_variant(var o_, int v_, int tag, int
   if (v_ == 0) throw(o_, "%s from slot %i %$", TAGS[TAGI], $I(SLOT), msg_arg(o_, (K))); \
   else throw_variant(o_, v_, (TAGI), (SLOT), (K)); } while (0)
 
-static void plain_thrower(void) { THROW_AT(TB, 2, 1, 1); }
+/* the callee receives the object to throw as its argument */
+static __attribute__((noinline)) void plain_thrower(var x) { THROW_AT(x, 2, 1, 1); }
+/* statement 9: the handler throws the object it was given */
+static __attribute__((noinline)) void rethrow_bound(var e, int slot) { THROW_AT(e, 0, slot, slot); }
 
 /* one statement slot; the throw is written lexically at the slot */
 #define STMT(SLOT, CODE) do { const int c_ = (CODE); ev_add('S', (SLOT), c_); \
   switch (c_) { \
     case 1: case 2: case 3: THROW_AT(TH[c_].obj, c_, (SLOT), (SLOT) + c_ - 1); break; \
     case 4: case 5: case 6: case 7: fn1(KBASE + c_ - 4); break; \
-    case 8: plain_thrower(); break; \
+    case 8: plain_thrower(TB); break; \
     default: break; \
   } } while (0)
-
+/* a statement slot of a handler (e_ in scope) */
+#define STMT_H(SLOT, CODE) do { if ((CODE) == 9) { ev_add('S', (SLOT), 9); rethrow_bound(e_, (SLOT)); } else { STMT((SLOT), (CODE)); } } while (0)
 
 /* one try/catch construct of level L: catch-all and filtered variants are separate texts */
 #define TRYCATCH(L, BODY, HAND) \
   ev_add('B', (L), 0); \
   if (P.F[L] == 0) { \
-    try { BODY } catch (e_) { ev_add('H', (L), objid(e_)); HAND } \
+    try { BODY } catch (e_) { ev_add('H', (L), hbound(e_)); HAND } \
   } else { \
     var fa_ = FT[P.F[L]][0]; var fb_ = FT[P.F[L]][1]; var fc_ = FT[P.F[L]][2]; \
-    try { BODY } catch (e_ in fa_, fb_, fc_) { ev_add('H', (L), objid(e_)); HAND } \
+    try { BODY } catch (e_ in fa_, fb_, fc_) { ev_add('H', (L), hbound(e_)); HAND } \
   } \
   ev_add('E', (L), 0);
 
 #define S_B0(L) STMT((L) * 4 + 0, P.b0[L]);
 #define S_B1(L) STMT((L) * 4 + 1, P.b1[L]);
-#define S_H0(L) STMT((L) * 4 + 2, P.h0[L]);
-#define S_H1(L) STMT((L) * 4 + 3, P.h1[L]);
+#define S_H0(L) STMT_H((L) * 4 + 2, P.h0[L]);
+#define S_H1(L) STMT_H((L) * 4 + 3, P.h1[L]);
 
 #define C1(L) TRYCATCH(L, S_B0(L) S_B1(L), S_H0(L) S_H1(L))
 #define IN1(L) if (P.dyn[L]) { fn1((L) + 1); } else { C1(((L) + 1)) }
@@ -419,7 +568,13 @@ static void run_top(void) {
 }
 
 /* sentinel { a ; [b] } */
+/* the program is over: the owner of the thrown value objects looks at what the handlers left in them */
+static void owner_reads(void) {
+  for (int k = 1; k <= 3; k++) if (TH[k].kind != OK_TYPE) ev_add('W', k, read_mark(k));
+}
+
 static void exec_sent(struct prog* a, struct prog* b) {
+  FRAME_OBJS                       /* the stack-class objects live in THIS frame, around the sentinel */
   SH->ntr = 0; SH->badmsg = 0;
   EXC = current(Exception);
   try {
@@ -427,9 +582,11 @@ static void exec_sent(struct prog* a, struct prog* b) {
     if (b) { ev_add('M', 0, 0); PP = b; run_top(); }
     ev_add('N', (int)running(EXC), objid(((struct Exception*)EXC)->obj));
   } catch (e_) {
-    ev_add('X', 0, objid(e_));
+    ev_add('X', 0, hbound(e_));
   }
   ev_add('Z', (int)running(EXC), objid(((struct Exception*)EXC)->obj));
+  owner_reads();
+  FRAME_END;
 }
 
 /* ---- reference interpreter ------------------------------------------------------- */
@@ -448,15 +605,24 @@ static int filt_match(int f, int x) {
 
 static int ref_block(int L, int r, int depth);
 
-/* returns 0 = normal, else the id of the raised object */
-static int ref_stmt(int slot, int code, int depth) {
+/* returns 0 = normal, else the id of the raised object; bound = the object of the handler the slot is in (0: a body slot) */
+static int ref_stmt_in(int slot, int code, int depth, int bound) {
   ex_add('S', slot, code, depth);
   switch (code) {
     case 1: case 2: case 3: return code;
     case 4: case 5: case 6: case 7: return ref_block(KBASE + code - 4, 1, depth);
     case 8: return 2;
+    case 9: return bound;
     default: return 0;
   }
+}
+static int ref_stmt(int slot, int code, int depth) { return ref_stmt_in(slot, code, depth, 0); }
+
+/* the marks the owner must find: the ordinal of the last handler entry (H or X) bound to each thrown value object */
+static void ref_marks(int depth) {
+  int last[4] = { 0, 0, 0, 0 }, n = 0;
+  for (int i = 0; i < nex && i < MAXEV; i++) if (EX[i].kind == 'H' || EX[i].kind == 'X') { n++; if (EX[i].b >= 1 && EX[i].b <= 3) last[EX[i].b] = n; }
+  for (int k = 1; k <= 3; k++) if (TH[k].kind != OK_TYPE) ex_add('W', k, last[k], depth);
 }
 
 /* r = number of chain levels from here (1 = leaf); r == -1: the seqt outer construct */
@@ -478,10 +644,10 @@ static int ref_block(int L, int r, int depth) {
     ref_decisions++;
     if (!filt_match(RP->F[L], x)) return x;          /* propagates outward */
     ex_add('H', L, x, depth);
-    int y = ref_stmt(L * 4 + 2, RP->h0[L], depth);
+    int y = ref_stmt_in(L * 4 + 2, RP->h0[L], depth, x);
     if (r != -1) {
       if (!y && r > 1 && RP->shape[L] == 1) y = ref_block(L + 1, r - 1, depth);
-      if (!y) y = ref_stmt(L * 4 + 3, RP->h1[L], depth);
+      if (!y) y = ref_stmt_in(L * 4 + 3, RP->h1[L], depth, x);
     }
     if (y) return y;                                 /* raised in the handler */
   }
@@ -510,13 +676,14 @@ static int ref_sent(const struct prog* a, const struct prog* b) {
   if (!x && b) { ex_add('M', 0, 0, 1); x = ref_top(b, 1); }
   if (x) ex_add('X', 0, x, 0); else ex_add('N', 0, 0, 1);
   ex_add('Z', 0, 0, 0);
+  ref_marks(0);
   return x;
 }
 
 static int ref_nosent(const struct prog* a) {
   nex = 0; ref_decisions = 0; ref_maxdepth = 0;
   int x = ref_top(a, 0);
-  if (x) ex_add('U', 0, x, 0); else ex_add('N', 0, 0, 0);
+  if (x) ex_add('U', 0, x, 0); else { ex_add('N', 0, 0, 0); ref_marks(0); }
   return x;
 }
 
@@ -554,7 +721,7 @@ static const char* get_prog(const char* s, struct prog* p) {
   p->pre = D(s[16], 8); p->post = D(s[17], 8); p->mid = D(s[18], 8);
   for (int L = 0; L < 3; L++) {
     const char* q = s + 21 + 5 * L;
-    p->b0[L] = D(q[0], 8); p->b1[L] = D(q[1], 8); p->h0[L] = D(q[2], 8); p->h1[L] = D(q[3], 8);
+    p->b0[L] = D(q[0], 8); p->b1[L] = D(q[1], 8); p->h0[L] = D(q[2], 9); p->h1[L] = D(q[3], 9);
   }
   p->F[0] = D(s[37], 3); p->F[1] = D(s[38], 3); p->F[2] = D(s[39], 3);
 #undef D
@@ -565,7 +732,7 @@ static const char* get_prog(const char* s, struct prog* p) {
 /* human-readable pseudo-code of a program */
 static const char* stmt_txt(int c) {
   static const char* t[] = { "", "throw A; ", "throw B; ", "throw C; ",
-    "K0(); ", "K1(); ", "K2(); ", "K3(); ", "thrower_B(); " };
+    "K0(); ", "K1(); ", "K2(); ", "K3(); ", "thrower(B); ", "throw e; " };
   return t[c];
 }
 static const char* filt_txt(int f) {
@@ -631,6 +798,7 @@ static char* render_trace(const struct ev* t, int n) {
       case 'N': k += snprintf(o + k, cap - k, "normal-end@%d ", t[i].depth); break;
       case 'Z': k += snprintf(o + k, cap - k, "after-sentinel@%d ", t[i].depth); break;
       case 'M': k += snprintf(o + k, cap - k, "| "); break;
+      case 'W': k += snprintf(o + k, cap - k, "OWNER-READS(%s:mark-of-handler-entry-%d) ", objname(t[i].a), t[i].b); break;
       default:  k += snprintf(o + k, cap - k, "%c(%d,%d)@%d ", t[i].kind, t[i].a, t[i].b, t[i].depth); break;
     }
   }
@@ -665,6 +833,8 @@ static void classify(char* label, size_t n, const struct ev* act, int nact, int 
   else if (ek == ak && (ek == 'N' || ek == 'Z')) sym = "nesting-depth-not-restored";
   else if (ek == 'H' && ak == 'H' && e->a == a->a && a->b >= 4 && a->b <= 7) sym = "handler-bound-to-filter-object-not-the-thrown-object";
   else if (ek == 'H' && ak == 'H' && e->a == a->a && a->b == 8) sym = "thrown-object-value-altered";
+  else if (((ek == 'H' && ak == 'H' && e->a == a->a) || (ek == 'X' && ak == 'X')) && a->b == 10) sym = "handler-bound-to-a-copy-not-the-thrown-object";
+  else if (ek == 'W' && ak == 'W' && e->a == a->a) sym = "handler-write-not-seen-by-thrower";
   else if (ek == 'H' && ak == 'H' && e->a == a->a) sym = "handler-bound-wrong-object";
   else if ((ek == 'X' && ak == 'X') || (ek == 'U' && ak == 'U')) sym = "propagated-wrong-object";
   else if ((ek == 'E' && ak == 'H' && e->a == a->a) || (ek == 'Z' && ak == 'X')) sym = "handler-ran-without-raise";
@@ -676,7 +846,10 @@ static void classify(char* label, size_t n, const struct ev* act, int nact, int 
   else if (is_h_like(ek) && (ak == 'E' || ak == 'N' || ak == 'S')) sym = "raised-exception-lost";
   else if (ak == 0) sym = "trace-ended-early";
   else { snprintf(gen, sizeof gen, "diverged-expected-%c-observed-%c", ek ? ek : '0', ak ? ak : '0'); sym = gen; }
-  snprintf(label, n, "exc/%s/%s%s", sym, prior, objs_mode == OBJ_CMPTHROW ? "/filter-entry-cmp-handles-an-exception-of-its-own" : "");
+  char cls[48]; cls[0] = 0;
+  if (strcmp(sym, "handler-bound-to-a-copy-not-the-thrown-object") == 0 && e->b >= 1 && e->b <= 3) snprintf(cls, sizeof cls, "/thrown-object-is-a-%s-object", ac_txt(e->b));
+  if (strcmp(sym, "handler-write-not-seen-by-thrower") == 0 && e->a >= 1 && e->a <= 3) snprintf(cls, sizeof cls, "/thrown-object-is-a-%s-object", ac_txt(e->a));
+  snprintf(label, n, "exc/%s/%s%s%s", sym, prior, cls, objs_mode == OBJ_CMPTHROW ? "/filter-entry-cmp-handles-an-exception-of-its-own" : "");
 }
 
 /* compares SH->tr with EX; on mismatch records a violation; returns 1 if equal */
@@ -697,7 +870,7 @@ static int compare(const char* kase, const struct prog* a, const struct prog* b,
     }
     return 1;
   }
-  char label[160];
+  char label[240];
   classify(label, sizeof label, act, nact, i);
   for (int v = 0; v < vf.nviols; v++)               /* already have the shortest case of this label: count only */
     if (strcmp(vf.viols[v].label, label) == 0 && !vf.replay) { vf_violation(label, "", ""); return 0; }
@@ -715,7 +888,7 @@ static struct prog Q;                /* program under enumeration */
 static struct prog PRE;              /* prefix program (chain modes) */
 struct slot { int* p; const char* alpha; int n, i; };
 static struct slot SL[48]; static int NSL;
-static const char *alpha, *ppalpha, *falpha;
+static const char *alpha, *halpha, *ppalpha, *falpha;
 static int p_kind, p_depth, shapes_all, dyns_all, shard_k, shard_n;
 
 static void add_slot(int* p, const char* al) {
@@ -729,16 +902,16 @@ static void build_slots(void) {
       int leaf = (L == Q.depth - 1);
       add_slot(&Q.b0[L], alpha);
       if (!leaf && Q.shape[L] == 0) add_slot(&Q.b1[L], alpha);
-      add_slot(&Q.h0[L], alpha);
-      if (!leaf && Q.shape[L] == 1) add_slot(&Q.h1[L], alpha);
+      add_slot(&Q.h0[L], halpha);
+      if (!leaf && Q.shape[L] == 1) add_slot(&Q.h1[L], halpha);
       add_slot(&Q.F[L], falpha);
     }
   } else {
-    add_slot(&Q.b0[0], alpha); add_slot(&Q.h0[0], alpha); add_slot(&Q.F[0], falpha);
-    add_slot(&Q.b0[1], alpha); add_slot(&Q.h0[1], alpha); add_slot(&Q.F[1], falpha);
+    add_slot(&Q.b0[0], alpha); add_slot(&Q.h0[0], halpha); add_slot(&Q.F[0], falpha);
+    add_slot(&Q.b0[1], alpha); add_slot(&Q.h0[1], halpha); add_slot(&Q.F[1], falpha);
     add_slot(&Q.mid, alpha);
     if (Q.kind == K_SEQT) {
-      add_slot(&Q.b0[2], alpha); add_slot(&Q.b1[2], alpha); add_slot(&Q.h0[2], alpha); add_slot(&Q.F[2], falpha);
+      add_slot(&Q.b0[2], alpha); add_slot(&Q.b1[2], alpha); add_slot(&Q.h0[2], halpha); add_slot(&Q.F[2], falpha);
     }
   }
   add_slot(&Q.post, ppalpha);
@@ -845,6 +1018,7 @@ static void visit_main(void) {
   int ok = compare(NULL, &Q, NULL, NULL);
   count_outcome(); track_depth();
   int n = SH->ntr;
+  while (n >= 1 && n <= MAXEV && SH->tr[n - 1].kind == 'W') n--;       /* the owner's reads follow the 'Z' event */
   if (n >= 1 && n <= MAXEV) {
     volatile struct ev* z = &SH->tr[n - 1];
     if (z->kind == 'Z') note_residual(rep_out, &nrep_out, z->depth, z->a, z->b, &Q, ok);
@@ -901,11 +1075,13 @@ static void child_fn(void* arg) {
   in_child = 1;
   dup2(child_wfd, 2);
   close(child_wfd);
+  FRAME_OBJS                       /* no sentinel: the stack-class objects live in this frame, around the program */
   SH->ntr = 0;
   EXC = current(Exception);
   PP = &Q;
   run_top();
   ev_add('N', 0, 0);
+  owner_reads();
 }
 
 static void visit_fork(void) {
@@ -974,7 +1150,8 @@ static void visit_fork(void) {
 
 /* ---- deep nesting ---------------------------------------------------------------------- */
 
-struct deep_case { int D, T1, T2, x, tf, rt; };   /* T = -1: nobody; x = thrown 1|2; tf: 0 catch-all at T1, 1 typed; rt: T1's handler throws the other object */
+struct deep_case { int D, T1, T2, x, tf, rt, rs; };   /* T = -1: nobody; x = thrown 1|2; tf: 0 catch-all at T1, 1 typed; rt: T1's handler throws the other object, or (rs) re-throws the object it was given */
+#define DC_X2 (DC.rs ? DC.x : 3 - DC.x)           /* the object T1's handler throws */
 static struct deep_case DC;
 #define DS (SH->deep)
 
@@ -995,9 +1172,9 @@ static void deep_rec(int level);
   } else { deep_rec(level + 1); }
 
 #define DEEP_HAND \
-  if (DS.nh < 8) { DS.h[DS.nh].level = level; DS.h[DS.nh].obj = objid(e_); DS.h[DS.nh].depth = (int)len(EXC); } \
+  { int id_ = hbound(e_); if (DS.nh < 8) { DS.h[DS.nh].level = level; DS.h[DS.nh].obj = id_; DS.h[DS.nh].depth = (int)len(EXC); } } \
   DS.nh++; \
-  if (level == DC.T1 && DC.rt) { THROW_AT(deep_thrown(3 - DC.x), 3 - DC.x, level + DC.x + 1, level + 1); }
+  if (level == DC.T1 && DC.rt) { if (DC.rs) rethrow_bound(e_, level + DC.x + 1); else THROW_AT(deep_thrown(3 - DC.x), 3 - DC.x, level + DC.x + 1, level + 1); }
 
 /* one level: the parameter is never modified, so it may be read after the longjmp */
 static void deep_rec(int level) {
@@ -1009,7 +1186,7 @@ static void deep_rec(int level) {
     ** distinct objects: a Tuple holding the same object twice cannot be iterated (known finding D16 of
     ** C11), so `catch (e in X, X)` would not terminate - not a C07 matter */
     var fa_ = FNO[0];
-    var fb_ = level == DC.T1 ? deep_filter(DC.x) : (level == DC.T2 && DC.rt) ? deep_filter(3 - DC.x) : FNO[1];
+    var fb_ = level == DC.T1 ? deep_filter(DC.x) : (level == DC.T2 && DC.rt) ? deep_filter(DC_X2) : FNO[1];
     try { DEEP_BODY } catch (e_ in fa_, fb_) { DEEP_HAND }
   }
   { int d_ = (int)len(EXC); if (d_ != level) deep_bad('x', level, d_); }
@@ -1027,10 +1204,12 @@ static void deep_child(void* arg) {
   in_child = 1;
   dup2(child_wfd, 2);
   close(child_wfd);
+  FRAME_OBJS                       /* the stack-class objects live in this frame, D levels above the throw */
   EXC = current(Exception);
   deep_rec(0);
   DS.finished = 1;
   DS.final_depth = (int)len(EXC);
+  for (int k = 1; k <= 2; k++) DS.mark[k] = read_mark(k);
   /* an ordinary program afterwards: try { K0(); try { throw B } catch (e in A,N) { } } catch (e in N,B) { K2() }  throw A */
   struct prog q; prog_init(&q);
   q.depth = 2; q.b0[0] = 4; q.b0[1] = 2; q.F[1] = 1; q.F[0] = 2; q.h0[0] = 6; q.post = 1;
@@ -1050,17 +1229,18 @@ static const char* deep_class(int D, char* buf, size_t n) {
 static uint64_t deep_cases, deep_uncaught;
 
 static void deep_run(void) {
-  char cls[16], label[160], kase[128], what[256];
+  char cls[16], label[240], kase[128], what[320];
   deep_class(DC.D, cls, sizeof cls);
-  snprintf(kase, sizeof kase, "deep:D=%d,T1=%d,T2=%d,x=%d,tf=%d,rt=%d", DC.D, DC.T1, DC.T2, DC.x, DC.tf, DC.rt);
+  snprintf(kase, sizeof kase, "deep:D=%d,T1=%d,T2=%d,x=%d,tf=%d,rt=%d,rs=%d", DC.D, DC.T1, DC.T2, DC.x, DC.tf, DC.rt, DC.rs);
   vf_set_cur("%s", kase);
   snprintf(what, sizeof what, "%d nested try blocks (recursion), all filters non-matching except level %d (%s)%s; throw %s at the bottom",
     DC.D, DC.T1, DC.T1 < 0 ? "nobody" : DC.tf ? "typed" : "catch-all",
-    DC.rt ? (DC.T2 >= 0 ? ", whose handler throws the other object to level 0" : ", whose handler throws the other object to nobody") : "", objname(DC.x));
+    DC.rt ? (DC.rs ? (DC.T2 >= 0 ? ", whose handler re-throws the object it was given to level 0" : ", whose handler re-throws the object it was given to nobody")
+                   : (DC.T2 >= 0 ? ", whose handler throws the other object to level 0" : ", whose handler throws the other object to nobody")) : "", objname(DC.x));
   /* expectation */
   int eh = 0, ehl[2], eho[2], final_obj = 0;     /* final_obj: escapes everything */
   if (DC.T1 >= 0) { ehl[eh] = DC.T1; eho[eh] = DC.x; eh++;
-    if (DC.rt) { if (DC.T2 >= 0) { ehl[eh] = DC.T2; eho[eh] = 3 - DC.x; eh++; } else final_obj = 3 - DC.x; } }
+    if (DC.rt) { if (DC.T2 >= 0) { ehl[eh] = DC.T2; eho[eh] = DC_X2; eh++; } else final_obj = DC_X2; } }
   else final_obj = DC.x;
   int eexits = final_obj ? 0 : ehl[eh - 1] + 1;
 
@@ -1097,7 +1277,7 @@ static void deep_run(void) {
   for (int i = 0; i < DS.nh && i < 8; i++) {
     if (i >= eh) DEEP_VIOL(DS.h[i].level == DS.h[i ? i - 1 : 0].level ? "handler-ran-twice" : "non-matching-handler-ran", "handler of level %d ran (bound %s) but should not", DS.h[i].level, objname(DS.h[i].obj));
     if (DS.h[i].level != ehl[i]) DEEP_VIOL("wrong-handler-ran", "handler of level %d ran, expected the handler of level %d", DS.h[i].level, ehl[i]);
-    if (DS.h[i].obj != eho[i]) DEEP_VIOL(DS.h[i].obj >= 4 && DS.h[i].obj <= 7 ? "handler-bound-to-filter-object-not-the-thrown-object" : "handler-bound-wrong-object", "handler of level %d bound %s, thrown was %s", DS.h[i].level, objname(DS.h[i].obj), objname(eho[i]));
+    if (DS.h[i].obj != eho[i]) DEEP_VIOL(DS.h[i].obj >= 4 && DS.h[i].obj <= 7 ? "handler-bound-to-filter-object-not-the-thrown-object" : DS.h[i].obj == 10 ? "handler-bound-to-a-copy-not-the-thrown-object" : "handler-bound-wrong-object", "handler of level %d bound %s, thrown was %s", DS.h[i].level, objname(DS.h[i].obj), objname(eho[i]));
     if (DS.h[i].depth != ehl[i]) DEEP_VIOL("nesting-depth-mismatch", "len(current(Exception)) = %d in the handler of level %d, expected %d", DS.h[i].depth, DS.h[i].level, ehl[i]);
   }
   if (DS.nh < eh) DEEP_VIOL("target-handler-did-not-run", "%d handler(s) ran, expected %d (level %d)", DS.nh, eh, ehl[DS.nh]);
@@ -1110,6 +1290,11 @@ static void deep_run(void) {
   if (!DS.finished) DEEP_VIOL("terminated-after-handled-exception", "the exception was handled at level %d but the process ended (exit status %d) before the outermost construct completed", ehl[eh - 1], r.status);
   if (DS.exits != eexits) DEEP_VIOL("wrong-number-of-constructs-completed", "%d constructs completed normally, expected %d", DS.exits, eexits);
   if (DS.final_depth != 0) DEEP_VIOL("nesting-depth-not-restored", "len(current(Exception)) = %d after the outermost construct", DS.final_depth);
+  for (int k = 1; k <= 2; k++) {
+    int em = 0; for (int i = 0; i < eh; i++) if (eho[i] == k) em = i + 1;
+    if (TH[k].kind != OK_TYPE && DS.mark[k] != em) DEEP_VIOL("handler-write-not-seen-by-thrower", "the %s object %s carries the mark of handler entry %d when the nest has completed; the last handler bound to it was entry %d (0 = none): what a handler writes into the object it is given must reach the thrower's object",
+      ac_txt(k), objname(k), DS.mark[k], em);
+  }
   if (!DS.after_ran || !DS.after_ok) DEEP_VIOL("following-program-misbehaves", "an ordinary depth-2 program run afterwards %s", DS.after_ran ? "produced a trace different from the reference" : "did not complete");
   if (r.status != 0) DEEP_VIOL("failure-status-without-exception", "exit status %d", r.status);
   vf.executions++;          /* the following program */
@@ -1137,10 +1322,10 @@ static void deep_all(void) {
       int T1 = tl[ti], d2 = 0;
       for (int tj = 0; tj < ti; tj++) if (tl[tj] == T1) d2 = 1;
       if (d2) continue;
-      for (int x = 1; x <= 2; x++) for (int tf = 1; tf >= 0; tf--) for (int rt = 0; rt <= 2; rt++) {
+      for (int x = 1; x <= 2; x++) for (int tf = 1; tf >= 0; tf--) for (int rt = 0; rt <= 4; rt++) {     /* rt 3, 4: as 1, 2 with the bound object re-thrown */
         if (T1 < 0 && (tf == 0 || rt)) continue;            /* nobody handles: one variant */
-        if (rt == 1 && T1 == 0) continue;                     /* no outer target above the outermost level */
-        DC.D = D; DC.T1 = T1; DC.x = x; DC.tf = tf; DC.rt = rt ? 1 : 0; DC.T2 = rt == 1 ? 0 : -1;
+        if ((rt == 1 || rt == 3) && T1 == 0) continue;        /* no outer target above the outermost level */
+        DC.D = D; DC.T1 = T1; DC.x = x; DC.tf = tf; DC.rt = rt ? 1 : 0; DC.T2 = (rt == 1 || rt == 3) ? 0 : -1; DC.rs = rt >= 3;
         vf_watchdog(120);
         deep_run();
       }
@@ -1228,7 +1413,7 @@ static void bi_name(int i) {
   vf_set_cur("builtin:name:%d", i);
   vf.evaluations++;
   const char* nm = c_str(BK[i]);
-  char label[160];
+  char label[240];
   if (strcmp(nm, BKN[i]) != 0) {
     snprintf(label, sizeof label, "exc/builtin/%s/name-differs-from-identifier", BKN[i]);
     vf_violation(label, NULL, "c_str(%s) is \"%s\": the kind carries another kind's name, and catch filters match type objects by name", BKN[i], nm);
@@ -1395,7 +1580,8 @@ static void do_replay(const char* c) {
     vf_finish();
   }
   if (strncmp(c, "deep:", 5) == 0) {
-    if (sscanf(c, "deep:D=%d,T1=%d,T2=%d,x=%d,tf=%d,rt=%d", &DC.D, &DC.T1, &DC.T2, &DC.x, &DC.tf, &DC.rt) != 6 ||
+    DC.rs = 0;
+    if (sscanf(c, "deep:D=%d,T1=%d,T2=%d,x=%d,tf=%d,rt=%d,rs=%d", &DC.D, &DC.T1, &DC.T2, &DC.x, &DC.tf, &DC.rt, &DC.rs) < 6 ||
         DC.D < 1 || DC.D > (int)EXCEPTION_MAX_DEPTH - (msg_mode ? 2 : objs_mode >= OBJ_CMPTRY ? 1 : 0) || DC.x < 1 || DC.x > 2) { fprintf(stderr, "replay: bad deep case '%s'\n", c); exit(2); }
     deep_run();
     printf(vf.nviols ? "replay: violation\n" : "replay: as expected\n");
@@ -1440,6 +1626,11 @@ int main(int argc, char** argv) {
                 strcmp(om, "mixed1") == 0 ? OBJ_MIXED1 : strcmp(om, "mixed2") == 0 ? OBJ_MIXED2 : strcmp(om, "mixed3") == 0 ? OBJ_MIXED3 : strcmp(om, "cmptry") == 0 ? OBJ_CMPTRY : strcmp(om, "cmpthrow") == 0 ? OBJ_CMPTHROW : OBJ_TYPES;
     if (objs_mode == OBJ_TYPES && strcmp(om, "types") != 0) { fprintf(stderr, "objs must be types|struct|string|int|mixed1|mixed2|mixed3|cmptry|cmpthrow\n"); return 2; }
     objs_setup();
+    const char* am = vf_param("alloc", "mix1");
+    alloc_mode = strcmp(am, "heap") == 0 ? 0 : strcmp(am, "static") == 0 ? 1 : strcmp(am, "stack") == 0 ? 2 : strcmp(am, "mix1") == 0 ? 3 : strcmp(am, "mix2") == 0 ? 4 : strcmp(am, "mix3") == 0 ? 5 : -1;
+    if (alloc_mode < 0) { fprintf(stderr, "alloc must be mix1|mix2|mix3|heap|static|stack\n"); return 2; }
+    alloc_setup();
+    vf_extra("thrown_objects_allocation", "\"A: %s, B: %s, C: %s\"", ac_txt(1), ac_txt(2), ac_txt(3));
     const char* mm = vf_param("msg", "0");
     msg_mode = strcmp(mm, "mix") == 0 ? 5 : (int)strtol(mm, NULL, 10);
     if (msg_mode < 0 || msg_mode > 5) { fprintf(stderr, "msg must be 0..4 or mix\n"); return 2; }
@@ -1466,6 +1657,9 @@ int main(int argc, char** argv) {
   p_depth = (int)vf_param_i("depth", 1);
   if (p_depth < 1 || p_depth > 3) { fprintf(stderr, "depth must be 1..3\n"); return 2; }
   alpha = vf_param("alpha", "012");
+  halpha = vf_param("halpha", alpha);
+  for (const char* c = alpha; *c; c++) if (*c < '0' || *c > '8') { fprintf(stderr, "alpha: codes 0..8\n"); return 2; }
+  for (const char* c = halpha; *c; c++) if (*c < '0' || *c > '9') { fprintf(stderr, "halpha: codes 0..9\n"); return 2; }
   ppalpha = vf_param("ppalpha", "0");
   falpha = vf_param("falpha", "0123");
   shapes_all = vf_param_is("shapes", "all", "all");
